@@ -133,8 +133,7 @@ func NewFloatFromString(typ *types.FloatType, s string) (*Float, error) {
 			if err != nil {
 				return nil, errors.WithStack(err)
 			}
-			f := float128ppc.NewFromBits(a, b)
-			x, nan := f.Big()
+			x, nan := ppcFP128FromBits(a, b)
 			return &Float{Typ: typ, X: x, NaN: nan}, nil
 		// half (IEEE 754 half precision)
 		case strings.HasPrefix(s, "0xH"):
@@ -301,6 +300,56 @@ func NewFloatFromString(typ *types.FloatType, s string) (*Float, error) {
 	}
 }
 
+// ppcFP128Prec is a precision which holds the sum of any two finite doubles
+// exactly (the exponents of doubles range from -1074 to 1023).
+const ppcFP128Prec = 2200
+
+// ppcFP128FromBits returns the value of the ppc_fp128 floating-point number
+// with the given binary representation (two doubles, high and low part; the
+// value is their sum) and a boolean indicating whether it is Not-a-Number.
+func ppcFP128FromBits(a, b uint64) (x *big.Float, nan bool) {
+	high, low := math.Float64frombits(a), math.Float64frombits(b)
+	x = new(big.Float).SetPrec(ppcFP128Prec)
+	switch {
+	case math.IsNaN(high) || math.IsNaN(low):
+		return x, true
+	case math.IsInf(high, 0):
+		// The low part of an infinite value carries no information.
+		return x.SetInf(math.Signbit(high)), false
+	case math.IsInf(low, 0):
+		return x.SetInf(math.Signbit(low)), false
+	}
+	x.Add(new(big.Float).SetPrec(ppcFP128Prec).SetFloat64(high), new(big.Float).SetPrec(ppcFP128Prec).SetFloat64(low))
+	if x.Sign() == 0 && math.Signbit(high) && !x.Signbit() {
+		// -zero
+		x.Neg(x)
+	}
+	return x, false
+}
+
+// ppcFP128Bits returns the binary representation (high and low part) of the
+// given value as ppc_fp128 floating-point number, and a boolean indicating
+// whether the representation is exact. The high part is x rounded to the
+// nearest double, the low part the remainder rounded to the nearest double.
+func ppcFP128Bits(x *big.Float) (a, b uint64, exact bool) {
+	if x.IsInf() {
+		return math.Float64bits(math.Inf(x.Sign())), 0, true
+	}
+	high, _ := x.Float64()
+	if math.IsInf(high, 0) {
+		// Above the range of ppc_fp128.
+		return math.Float64bits(high), 0, false
+	}
+	rem := new(big.Float).SetPrec(ppcFP128Prec)
+	rem.Sub(x, new(big.Float).SetPrec(ppcFP128Prec).SetFloat64(high))
+	low, acc := rem.Float64()
+	if high == 0 {
+		// Keep the sign of zero.
+		low = 0
+	}
+	return math.Float64bits(high), math.Float64bits(low), acc == big.Exact
+}
+
 // String returns the LLVM syntax representation of the constant as a type-value
 // pair.
 func (c *Float) String() string {
@@ -454,13 +503,10 @@ func (c *Float) Ident() string {
 			}
 			return fmt.Sprintf("0x%c%016X%016X", hexPrefix, a, b)
 		}
-		// Note: float128ppc.NewFromBig sets the precision and rounding mode of its
-		// argument; pass a copy as printing may not alter the constant.
-		f, acc := float128ppc.NewFromBig(new(big.Float).Copy(c.X))
-		if acc != big.Exact {
+		a, b, exact := ppcFP128Bits(c.X)
+		if !exact {
 			log.Printf("unable to represent floating-point constant %v of type %v exactly; please submit a bug report to llir/llvm with this error message", c.X, c.Typ)
 		}
-		a, b := f.Bits()
 		return fmt.Sprintf("0x%c%016X%016X", hexPrefix, a, b)
 	default:
 		panic(fmt.Errorf("support for floating-point kind %v not yet implemented", c.Typ.Kind))
